@@ -116,6 +116,8 @@ pub struct ExecOpts {
 
 pub struct ExecOut {
     pub ops: Vec<Op>,
+    /// every stored handle was a recorded adoption after every call (C09's precondition)
+    pub fully_recorded: bool,
     /// number of invocations of the payload's Clone impl
     pub clones: u32,
     /// destructor-side calls that the payload issued on its own (position, call)
@@ -238,7 +240,7 @@ pub fn execute(head: &str, src: Source<'_>, faults: &Faults, layout_seed: u64, o
     for i in 0..NSTATS {
         delta[i] = after[i].wrapping_sub(before[i]);
     }
-    ExecOut { ops: issued, clones: exec::x(|x| x.clone_counter), inline, dtors, call_digests, order_digest, digest, fired_panics, fired_scripts, delta }
+    ExecOut { ops: issued, fully_recorded: !exec::x(|x| x.not_fully_recorded), clones: exec::x(|x| x.clone_counter), inline, dtors, call_digests, order_digest, digest, fired_panics, fired_scripts, delta }
 }
 
 fn note_case(profile: &str, out: &ExecOut, faults: &Faults, extra: u64) {
@@ -362,6 +364,11 @@ fn do_run(rc: &RunCfg<'_>, run: u64) {
                 let o = execute(&head, Source::Explicit(&base.ops), &fi, l2, &opts);
                 st(St::p_layout_compared, 1);
                 orders.insert(o.order_digest);
+                if !(base.fully_recorded && o.fully_recorded) {
+                    // outside the property's precondition: nothing to compare
+                    st(St::p_layout_skipped_not_fully_recorded, 1);
+                    continue;
+                }
                 if o.call_digests != base.call_digests {
                     let at = o.call_digests.iter().zip(base.call_digests.iter()).position(|(a, b)| a != b).unwrap_or(o.call_digests.len().min(base.call_digests.len()));
                     report::STEP.store(at as u32, Relaxed);
@@ -937,7 +944,7 @@ fn replay(a: &Args) -> i32 {
         opts.layout_noise = a.has("--layout-noise") && i > 0;
         let o = execute(&head, Source::Explicit(&ops), &faults, l, &opts);
         if let Some(b) = &base {
-            if o.call_digests != b.call_digests {
+            if b.fully_recorded && o.fully_recorded && o.call_digests != b.call_digests {
                 let at = o.call_digests.iter().zip(b.call_digests.iter()).position(|(x, y)| x != y).unwrap_or(0);
                 report::STEP.store(at as u32, Relaxed);
                 report::violation("layout-dependence", "destroyed-set-or-counts-differ", &format!("the same call sequence behaves differently at call {at} under heap layout {l} than under layout {}", layouts[0]));
